@@ -8,7 +8,14 @@
 (* tab   : name of the value table (index -> tick), fixed in a behaviour      *)
 (* shape : "rw" the hardware index can be read back and written,              *)
 (*         "w"  it can only be written (a read shows the cached index)        *)
+(* mode  : what the driver's write_<idx> does with a requested index i:       *)
+(*         "echo"  stores i and returns i      "none" stores i, returns None  *)
+(*         "clamp" the hardware has no range above index Cap: it stores       *)
+(*                 Min(i, Cap) and returns what it stored (legal: the return  *)
+(*                 value of a write method is the value really set)           *)
+(*         "raise" above Cap it raises an error and stores nothing            *)
 (* idx   : cached index parameter          hw : index held by the hardware    *)
+(* req   : the index last requested from the driver's write_<idx> (-1: none)  *)
 (* val   : what the float parameter shows (module attribute, update stream,   *)
 (*         read reply - the binding compares all three with this variable)    *)
 (* last  : outcome of the last operation ("ok" / "refused")                   *)
@@ -16,6 +23,7 @@ EXTENDS Integers, FiniteSets, TLC
 
 CONSTANTS Tables,   \* subset of TableNames
           Shapes,   \* subset of {"rw", "w"}
+          Modes,    \* subset of {"echo", "none", "clamp", "raise"}
           Xs        \* ticks offered to a write of the float parameter
 
 Tab(name) ==
@@ -27,8 +35,8 @@ Tab(name) ==
     [] name = "mix4"  -> (0 :> 4 @@ 1 :> 1 @@ 2 :> 7 @@ 5 :> 2)
 TableNames == {"asc3", "desc3", "gap3", "two", "dup3", "mix4"}
 
-VARIABLES tab, shape, idx, hw, val, last
-fvars == <<tab, shape, idx, hw, val, last>>
+VARIABLES tab, shape, mode, idx, hw, req, val, last
+fvars == <<tab, shape, mode, idx, hw, req, val, last>>
 
 T == Tab(tab)
 Idxs == DOMAIN T
@@ -38,34 +46,41 @@ Max == CHOOSE v \in {T[i] : i \in Idxs} : \A j \in Idxs : v >= T[j]
 InRange(x) == Min <= x /\ x <= Max
 Closest(x) == {i \in Idxs : \A j \in Idxs : Abs(T[i] - x) <= Abs(T[j] - x)}
 FirstIdx == CHOOSE i \in Idxs : \A j \in Idxs : i <= j
+(* the second smallest index (the only one, if there is only one) *)
+Cap == CHOOSE i \in Idxs : Cardinality({j \in Idxs : j < i}) = (IF Cardinality(Idxs) > 1 THEN 1 ELSE 0)
 
-FInit == /\ tab \in Tables /\ shape \in Shapes
-         /\ idx = FirstIdx /\ hw = FirstIdx
+FInit == /\ tab \in Tables /\ shape \in Shapes /\ mode \in Modes
+         /\ idx = FirstIdx /\ hw = FirstIdx /\ req = 0 - 1
          /\ val = T[idx] /\ last = "ok"
 
-Select(i) == idx' = i /\ hw' = i /\ val' = T[i] /\ last' = "ok"
-Refuse == UNCHANGED <<idx, hw, val>> /\ last' = "refused"
+(* the driver is asked for index i: the module ends up on the index the hardware reports *)
+Lands(i) == IF mode = "clamp" /\ i > Cap THEN Cap ELSE i
+Fails(i) == mode = "raise" /\ i > Cap
+Ask(i) == /\ req' = i
+          /\ IF Fails(i) THEN UNCHANGED <<idx, hw, val>> /\ last' = "refused"
+                          ELSE idx' = Lands(i) /\ hw' = Lands(i) /\ val' = T[Lands(i)] /\ last' = "ok"
+Refuse == UNCHANGED <<idx, hw, req, val>> /\ last' = "refused"
 
 WriteFloat(x) ==         \* change <float> x  /  write_<float>(x)
-    /\ \/ \E i \in Closest(x) : Select(i)
+    /\ \/ \E i \in Closest(x) : Ask(i)
        \/ ~InRange(x) /\ Refuse      \* outside the table's range the datatype may refuse
-    /\ UNCHANGED <<tab, shape>>
+    /\ UNCHANGED <<tab, shape, mode>>
 
 WriteIdx(i) ==           \* change <idx> i  /  write_<idx>(i)
-    /\ i \in Idxs /\ Select(i) /\ UNCHANGED <<tab, shape>>
+    /\ i \in Idxs /\ Ask(i) /\ UNCHANGED <<tab, shape, mode>>
 
 AssignIdx(i) ==          \* driver: self.<idx> = i   (cache only)
     /\ i \in Idxs
     /\ idx' = i /\ val' = T[i] /\ last' = "ok"
-    /\ UNCHANGED <<hw, tab, shape>>
+    /\ UNCHANGED <<hw, req, tab, shape, mode>>
 
 ReadIdx ==               \* read <idx>  /  read_<idx>()
     /\ idx' = (IF shape = "rw" THEN hw ELSE idx)
     /\ val' = T[idx'] /\ last' = "ok"
-    /\ UNCHANGED <<hw, tab, shape>>
+    /\ UNCHANGED <<hw, req, tab, shape, mode>>
 
 ReadFloat ==             \* read <float>: shows val, changes nothing
-    /\ last' = "ok" /\ UNCHANGED <<idx, hw, val, tab, shape>>
+    /\ last' = "ok" /\ UNCHANGED <<idx, hw, req, val, tab, shape, mode>>
 
 FNext == \/ \E x \in Xs : WriteFloat(x)
          \/ \E i \in Idxs : WriteIdx(i) \/ AssignIdx(i)
@@ -73,12 +88,17 @@ FNext == \/ \E x \in Xs : WriteFloat(x)
 FSpec == FInit /\ [][FNext]_fvars
 
 (* ---- properties ---- *)
-TypeOK == tab \in TableNames /\ idx \in Idxs /\ hw \in Idxs /\ last \in {"ok", "refused"}
+TypeOK == /\ tab \in TableNames /\ idx \in Idxs /\ hw \in Idxs /\ req \in Idxs \cup {0 - 1}
+          /\ last \in {"ok", "refused"}
+(* whatever the driver answered: the float shows the value of the index the module is on *)
 ShowsIndexValue == val = T[idx]
-(* an accepted write of x inside the range selects a closest table value and reaches the hardware *)
+(* a write of x inside the range asks the driver for a closest table value; if the driver accepts, *)
+(* cache and hardware are on the index the driver reported                                         *)
 ClosestSelected == [][\A x \in Xs : (WriteFloat(x) /\ InRange(x)) =>
-                        /\ last' = "ok" /\ hw' = idx'
-                        /\ \A j \in Idxs : Abs(val' - x) <= Abs(T[j] - x)]_fvars
-(* a refused write changes nothing *)
+                        /\ \A j \in Idxs : Abs(T[req'] - x) <= Abs(T[j] - x)
+                        /\ last' = "ok" => (hw' = idx' /\ idx' = Lands(req'))]_fvars
+(* a refused write changes neither cache nor hardware *)
 RefusedChangesNothing == [][last' = "refused" => <<idx, hw, val>>' = <<idx, hw, val>>]_fvars
+(* without a clamping or refusing hardware the module ends up where it was asked to go *)
+FaithfulLands == [][(mode \in {"echo", "none"} /\ req' # req) => idx' = req']_fvars
 =============================================================================
